@@ -383,6 +383,16 @@ func cmdCheck(args []string) int {
 				exit = 1
 				continue
 			}
+			if !ok && scheduledTrace(v) && engineReplay(ld, o.run, v) {
+				// the counterexample includes a schedule (thread switches of the
+				// engine's scheduler); a native run with real goroutines cannot be
+				// forced into it, the engine's concrete re-execution follows it
+				lines = append(lines, fmt.Sprintf("VIOLATION property=%s replay=%s", id, file))
+				lines = append(lines, fmt.Sprintf("  harness=%s params=%v assert=%s %s %s (engine-concrete replay with the recorded schedule; the native run took another schedule)", o.run.Fn, o.run.Params, v.AssertID, v.Pos, v.Msg))
+				nViol++
+				exit = 1
+				continue
+			}
 			if ok {
 				lines = append(lines, fmt.Sprintf("VIOLATION property=%s replay=%s", id, file))
 				lines = append(lines, fmt.Sprintf("  harness=%s params=%v assert=%s %s %s", o.run.Fn, o.run.Params, v.AssertID, v.Pos, v.Msg))
@@ -1015,4 +1025,15 @@ func vacuousByBound(r *RunResult) bool {
 		return false
 	}
 	return r.Stubs["schedule: path cut at the scheduling-point bound"] > 0
+}
+
+// scheduledTrace: the violation was found under the engine's scheduler (its
+// event trace records thread switches).
+func scheduledTrace(v *Violation) bool {
+	for _, t := range v.Trace {
+		if strings.HasPrefix(t, "switch ") {
+			return true
+		}
+	}
+	return false
 }
